@@ -1,7 +1,7 @@
 (* C13 -- every message serialises: valid JSON, framed protobuf, agreeing values.
    Statements only; proofs in Proofs/FormatP.v, Proofs/RenderP.v. *)
 From Coq Require Import String List NArith Bool.
-From GF Require Import Base.Res Base.Bytes Model.Msg Model.Pb Model.Json Model.Render Spec.JsonGrammar Spec.ParseIP Proofs.FormatP Proofs.RenderP Proofs.ParseIPP.
+From GF Require Import Base.Res Base.Bytes Model.Msg Model.Pb Model.Json Model.Render Spec.JsonGrammar Spec.ParseIP Proofs.FormatP Proofs.RenderP Proofs.ParseIPP Proofs.Utf8P.
 Import ListNotations.
 Open Scope N_scope.
 
@@ -24,6 +24,16 @@ Print Assumptions c13_stream.
 Theorem c13_json_string : forall s, Forall (fun b => b < 128) s -> json_value (esc_string s).
 Proof. exact esc_string_value. Qed.
 Print Assumptions c13_json_string.
+
+(* ... and a string value of ARBITRARY bytes (what a string-rendered custom field may carry: ill-formed UTF-8, overlong
+   forms, surrogates, stray continuation bytes, U+2028 / U+2029) is written as a well-formed JSON string in UTF-8:
+   well-formed sequences are copied, U+2028/9 and every ill-formed byte are escaped (as U+FFFD).  The model agrees with
+   encoding/json on all single bytes, all two-byte strings with a lead byte and the table's boundary cases. *)
+Theorem c13_json_string_any_bytes : forall s, json_value (esc_string_utf8 s).
+Proof. exact esc_string_utf8_value. Qed.
+Print Assumptions c13_json_string_any_bytes.
+Theorem c13_json_string_ascii_same : forall s, Forall (fun b => b < 128) s -> esc_string_utf8 s = esc_string s.
+Proof. exact esc_string_utf8_ascii. Qed.
 
 (* the formatter's output is ONE well-formed JSON object for every list of rendered values
    (numbers, strings of any bytes, arrays), given key names that are plain JSON string text *)
